@@ -356,8 +356,35 @@ def unicode_ops(rng, kinds, valid):
     return ops
 
 
+RAW = [b"\x80", b"\xbf", b"\xc0", b"\xc3", b"\xe2", b"\xe2\x82", b"\xf0\x9f", b"\xfe", b"\xff", b"\xed\xa0\x80", b"\xc0\xaf",
+       b"\xef\xbb\xbf", b"\xc2\xa0", b"\xe2\x80\x8b", b"\x00", b"\x7f", b"\r", b"\t", b"\n"]
+
+
+def byte_edits(valid, rng, step=1):
+    """raw-byte edits of a valid vector: bytes that are not valid UTF-8 (lone continuation and lead bytes, truncated
+    sequences, overlongs, surrogates), a BOM, no-break and zero-width spaces, control bytes -- inserted at every
+    `step`-th position, appended, prepended, and in place of one byte; yields bytes"""
+    v = valid.encode()
+    for k in range(0, len(v) + 1, step):
+        r = rng.choice(RAW)
+        yield v[:k] + r + v[k:]
+        if k < len(v) and rng.chance(1, 3):
+            yield v[:k] + rng.choice(RAW) + v[k + 1:]
+    for r in RAW:
+        yield v + r
+        yield r + v
+        k = rng.below(len(v))
+        yield v[:k] + r + v[k:]
+
+
 def parser3_ops(rng, nseeds, heavy, kind="D3", nrandom=2000):
     ops = unicode_ops(rng, (kind, "N3"), vec.rand_v3(rng, 2, perm=False))
+    for i in range(max(3, nseeds // 3)):
+        L = i % 3
+        for t in byte_edits(vec.rand_v3(rng, L, perm=(i % 2 == 1)), rng):
+            ops.append(_op(kind, L, t))
+            if rng.chance(1, 4):
+                ops.append(_op("N3", L, t))
     for L, ver, t in seeds_v3(rng, nseeds):
         for s in edits_v3(ver, t, rng, heavy):
             # offer every string to its own decoder and (thinned) to the others
@@ -458,6 +485,12 @@ def edits_v2(b, t, e, rng, heavy):
 
 def parser2_ops(rng, nseeds, heavy, kind="D2", nrandom=2000):
     ops = unicode_ops(rng, (kind, "N2"), vec.rand_v2(rng, 2))
+    for i in range(max(3, nseeds // 3)):
+        L = i % 3
+        for t in byte_edits(vec.rand_v2(rng, L), rng):
+            ops.append(_op(kind, L, t))
+            if rng.chance(1, 4):
+                ops.append(_op("N2", L, t))
     for b, t, e in seeds_v2(rng, nseeds):
         for s in edits_v2(b, t, e, rng, heavy):
             for L in range(3):
